@@ -1,6 +1,7 @@
 import RedactVerif.Props.L2
 import RedactVerif.Props.FactsReset
 import RedactVerif.Props.FactsSkelPrinter
+import RedactVerif.Proofs.EqW
 /-
 C15 — HelperForErrorf returns the %w operand and the Sprintf text.
 
@@ -17,8 +18,11 @@ the P-model correspondence, route `errorf`):
   type never reaches method dispatch — it is reported as a bad verb but a
   capture made earlier survives (`w_basic_does_not_cancel`).
 
-FULL STATEMENT (not yet proved): the text equals Sprintf's / fmt.Errorf's for
-every format. Decided on the real code by the P-errorf oracle.
+"The text is otherwise identical to Sprintf's": proved for every format without a `%w`
+directive (`errorf_text_eq_sprintf`, over Proofs/EqW.lean: no function of the printer reads or
+writes `wrapErrs`/`wrappedErr` unless it is handed the verb `w` — a two-run induction over all 21
+functions). FULL STATEMENT (not yet proved): for formats *with* `%w`, the text is Sprintf's with
+the correctly used `%w` spelled `%v`. Decided on the real code by the P-errorf oracle.
 -/
 namespace Redact
 
@@ -69,5 +73,43 @@ theorem w_basic_does_not_cancel (env : Env) (n : Nat) (p : PP) (id : Nat) (k : B
 beyond what its caller set — stated for the bookkeeping of the report prefix. -/
 theorem helper_starts_capturing : (({ newPP with wrapErrs := true } : PP)).wrapErrs = true ∧
     (({ newPP with wrapErrs := true } : PP)).wrappedErr = none := by decide
+
+/-! ### The text is Sprintf's (formats without a `%w` directive) -/
+
+/-- **For every format none of whose directives has the verb `w`, `HelperForErrorf` prints exactly what `Sprintf`
+prints**: the same bytes, or the same propagating panic — for all operands, whose methods may themselves use `%w`
+in nested `Printf` calls (a nested printer never captures). -/
+theorem errorf_text_eq_sprintf (env : Env) (f : List Byte) (args : List Val) (hf : EqW.NoW f) :
+    (helperForErrorf env f args).output = (sprintf env f args).output := by
+  have h := EqW.errorf_rel_sprintf env f args hf
+  generalize sprintf env f args = a at h
+  generalize helperForErrorf env f args = b at h
+  cases h with
+  | ok hq => simp only [Res.output]; rw [hq.buf]
+  | panic b pl => rfl
+  | fuel => rfl
+  | unsupported => rfl
+
+/-- … in particular for ASCII formats without the letter `w`. -/
+theorem errorf_text_eq_sprintf_ascii (env : Env) (f : List Byte) (args : List Val) (h : ∀ x ∈ f, x < 0x80 ∧ x ≠ 0x77) :
+    (helperForErrorf env f args).output = (sprintf env f args).output :=
+  errorf_text_eq_sprintf env f args (EqW.noW_of_ascii f h)
+
+/-- Every operand printed under a verb other than `w` is printed the same with and without capture enabled, whatever
+has been captured so far (the operand-level statement behind the theorem above). -/
+theorem printArg_ignores_capture (env : Env) (n : Nat) (p : PP) (a : Bool) (b : Option Nat) (v : Val) (verb : Nat)
+    (hv : verb ≠ 119) :
+    (printArg env n { p with wrapErrs := a, wrappedErr := b } v verb).output = (printArg env n p v verb).output := by
+  have h := (EqW.espec_all env n).printArg p { p with wrapErrs := a, wrappedErr := b } v verb (EqW.eqv_setW p a b) hv
+  generalize printArg env n p v verb = x at h
+  generalize printArg env n { p with wrapErrs := a, wrappedErr := b } v verb = y at h
+  cases h with
+  | ok hq => simp only [Res.output]; rw [hq.buf]
+  | panic b pl => rfl
+  | fuel => rfl
+  | unsupported => rfl
+
+/-! Premises satisfiable: "x=%v %5d\n" is an ASCII format without `w`. -/
+example : ∀ x ∈ ([0x78, 0x3D, 0x25, 0x76, 0x20, 0x25, 0x35, 0x64, 0x0A] : List Byte), x < 0x80 ∧ x ≠ 0x77 := by decide
 
 end Redact
